@@ -291,9 +291,9 @@ Proof.
     destruct Hchs as ([id chs'] & <- & Hp). apply (proj1 (in_sort_by_key rep (id, chs'))) in Hp. destruct (Hrep id chs' Hp) as [_ Hall].
     rewrite Forall_forall in Hall. apply Hall, Hin. }
   assert (Hhas : forall nr, In nr nrules -> exists rc, In rc chains /\ ch_id rc = nr_id nr).
-  { intros nr Hnr. destruct (Hkeys nr Hnr) as (chs & Hg). apply al_get_in_pair in Hg. destruct (Hrep _ _ Hg) as [Hne Hall].
-    destruct chs as [|rc chs]; [contradiction|]. inversion Hall as [|? ? [_ Hid] _]; subst. exists rc. split; [|exact Hid].
-    unfold chains. apply in_concat. exists (rc :: chs). split; [|left; reflexivity]. apply in_map_iff. exists (nr_id nr, rc :: chs).
+  { intros nr Hnr. destruct (Hkeys nr Hnr) as (chs & rc & Hg & Hrc & _). apply al_get_in_pair in Hg. destruct (Hrep _ _ Hg) as [Hne Hall].
+    rewrite Forall_forall in Hall. destruct (Hall rc Hrc) as [_ Hid]. exists rc. split; [|exact Hid].
+    unfold chains. apply in_concat. exists chs. split; [|exact Hrc]. apply in_map_iff. exists (nr_id nr, chs).
     split; [reflexivity | apply (proj2 (in_sort_by_key rep _)); exact Hg]. }
   (* source rule behind a numbered rule *)
   assert (Hsrc : forall nr, In nr nrules -> exists r d, In r sorted /\ nrule_rel (ns_named st) r nr /\ In d S /\ same_body d r).
@@ -360,4 +360,135 @@ Proof.
     destruct (Hhas nrk Hnrk) as (rck & Hrck & Hidrck). destruct (Hidkey rck Hrck) as (l & Hl). exists l. rewrite <- Hidk, <- Hidnrk, <- Hidrck. exact Hl. }
   eexists chains, st, _. split; [exact Echains|]. split; [|exact Hok].
   unfold compile. rewrite Echains. cbn [bind]. rewrite Et. cbn [bind]. fold npc. fold pool. unfold model_of. rewrite Enodes. cbn [bind]. reflexivity.
+Qed.
+
+(* ---- what is known of the chains of any schema that gets through the first three passes ----------------------------- *)
+Lemma chains_of_facts S chains st : chains_of S = Ok (chains, st) ->
+  exists sorted order nrules,
+    sort_rule_references S = Ok (sorted, order) /\ gen_pattern_numbers sorted = Ok (nrules, st) /\
+    Forall2 (nrule_rel (ns_named st)) sorted nrules /\
+    (forall rc, In rc chains -> chain_from nrules rc) /\
+    (forall nr, In nr nrules -> exists rc, In rc chains /\ ch_id rc = nr_id nr /\ ch_sign rc = isort str_leb (nr_sign nr)) /\
+    (forall r, In r sorted <-> In r (rename_temp_rules 1 S)).
+Proof.
+  intros Hc. unfold chains_of in Hc.
+  destruct (sort_rule_references S) as [[sorted order]|e1] eqn:Es; cbn [bind fst] in Hc; [|discriminate].
+  pose proof (sort_rule_references_spec S) as Hs. rewrite Es in Hs. destruct Hs as (_ & _ & _ & _ & Hsin & Hafter & _).
+  pose proof (gen_pattern_numbers_spec sorted) as Hn. pose proof (gen_pattern_numbers_rel sorted) as Hrel.
+  destruct (gen_pattern_numbers sorted) as [[nrules st']|e2] eqn:En; cbn [bind] in Hc; [|discriminate].
+  specialize (Hrel nrules st' eq_refl). destruct Hn as (HI & _).
+  destruct (replicate_rules_ok nrules (ns_next_temp st') (refs_earlier_of _ _ _ Hrel Hafter) (ni_temp _ HI)) as (rep & Erep & Hrep & Hkeys).
+  rewrite Erep in Hc. cbn [bind] in Hc. inversion Hc; subst chains st'. clear Hc.
+  exists sorted, order, nrules. split; [reflexivity|]. split; [exact En|]. split; [exact Hrel|]. split; [|split; [|exact Hsin]].
+  - intros rc Hrc. apply in_concat in Hrc. destruct Hrc as (chs & Hchs & Hin). apply in_map_iff in Hchs.
+    destruct Hchs as ([id chs'] & <- & Hp). apply (proj1 (in_sort_by_key rep (id, chs'))) in Hp. destruct (Hrep id chs' Hp) as [_ Hall].
+    rewrite Forall_forall in Hall. apply Hall, Hin.
+  - intros nr Hnr. destruct (Hkeys nr Hnr) as (chs & rc & Hg & Hrc & Hsg). apply al_get_in_pair in Hg. destruct (Hrep _ _ Hg) as [Hne Hall].
+    rewrite Forall_forall in Hall. destruct (Hall rc Hrc) as [_ Hid]. exists rc. split; [|split; [exact Hid | exact Hsg]].
+    apply in_concat. exists chs. split; [|exact Hrc]. apply in_map_iff. exists (nr_id nr, chs).
+    split; [reflexivity | apply (proj2 (in_sort_by_key rep _)); exact Hg].
+Qed.
+
+(* ---- unknown signer --------------------------------------------------------------------------------------------------- *)
+(* what the lexer produces: no '#' after the first character *)
+Definition ident_plain (k : ident) : Prop := ~ In ch_hash (tl k).
+
+Lemma renamed_temp_not_plain r k : is_temp_rule r = true -> ~ ident_plain (r ++ ch_hash :: dec_print k).
+Proof.
+  intros Ht Hp. apply Hp. destruct r as [|a [|b r]]; cbn in Ht; try discriminate. cbn. right. apply in_or_app. right. left. reflexivity.
+Qed.
+
+Lemma rename_bwd_id : forall S k d', In d' (rename_temp_rules k S) ->
+  exists d, In d S /\ ((is_temp_rule (r_id d) = false /\ r_id d' = r_id d) \/
+                       (is_temp_rule (r_id d) = true /\ exists k', r_id d' = r_id d ++ ch_hash :: dec_print k')).
+Proof.
+  induction S as [|x S IH]; intros k d' Hin; [destruct Hin|]. cbn [rename_temp_rules] in Hin.
+  destruct (is_temp_rule (r_id x)) eqn:Et.
+  - destruct Hin as [<-|Hin].
+    + exists x. split; [left; reflexivity|]. right. split; [exact Et|]. exists k. reflexivity.
+    + destruct (IH (k + 1) d' Hin) as (d & H1 & H2). exists d. split; [right; exact H1 | exact H2].
+  - destruct Hin as [<-|Hin].
+    + exists x. split; [left; reflexivity|]. left. auto.
+    + destruct (IH k d' Hin) as (d & H1 & H2). exists d. split; [right; exact H1 | exact H2].
+Qed.
+
+
+Definition entries_nonempty (r : list (ident * list N)) : Prop := forall id l, al_get ident_eqb r id = Some l -> l <> [].
+
+Lemma rids_add_nonempty r rid v : entries_nonempty r -> entries_nonempty (rids_add r rid v).
+Proof.
+  intros Hr id l. unfold rids_add. destruct (al_get ident_eqb r rid) as [lx|] eqn:Ex.
+  - destruct (list_eq_dec N.eq_dec id rid) as [->|Hne].
+    + rewrite al_get_set_same by (unfold al_mem; rewrite Ex; reflexivity). intros H; inversion H. destruct lx; discriminate.
+    + rewrite al_get_set_other by congruence. apply Hr.
+  - rewrite (al_get_app_none _ _ _ _ Ex). destruct (ident_eqb id rid) eqn:E; [|apply Hr].
+    destruct (al_get ident_eqb r id) as [x0|] eqn:Eid; intros H; inversion H; subst; [eapply Hr; eauto | discriminate].
+Qed.
+
+Lemma rids_of_nonempty pool : entries_nonempty (rids_of pool).
+Proof.
+  unfold rids_of.
+  assert (G : forall pool0 (s : N * list (ident * list N)), entries_nonempty (snd s) ->
+            entries_nonempty (snd (fold_left (fun (s : N * list (ident * list N)) g0 =>
+                    (fst s + 1, fold_left (fun r rid => rids_add r rid (fst s)) (g_rule g0) (snd s))) pool0 s))).
+  { induction pool0 as [|g0 pool0 IHp]; intros s Hs; cbn [fold_left]; [exact Hs|]. apply IHp. cbn [snd].
+    generalize (fst s) as v. intros v. revert Hs. generalize (snd s) as r. generalize (g_rule g0) as rules.
+    induction rules as [|x rules IHr]; intros r Hr; cbn [fold_left]; [exact Hr|]. apply IHr. apply rids_add_nonempty, Hr. }
+  apply (G pool (0, [])). intros id l H. discriminate.
+Qed.
+
+Theorem compile_rejects_unknown_signer S d k :
+  In d S -> In k (r_sign d) -> defined S k = false -> ident_plain k -> compile S = Err ESemantic.
+Proof.
+  intros Hd Hk Hdef Hplain.
+  destruct (compile S) as [m|e] eqn:Ec; [|f_equal; eapply compile_err; eauto]. exfalso.
+  unfold compile in Ec. destruct (chains_of S) as [[chains st]|e1] eqn:Ech; cbn [bind] in Ec; [|discriminate].
+  destruct (chains_of_facts _ _ _ Ech) as (sorted & order & nrules & Es & En & Hrel & Hfrom & Hhas & Hsin).
+  destruct (gen_tree (Datatypes.S (max_chain_len chains)) 0 chains []) as [t|] eqn:Et; cbn [bind] in Ec; [|discriminate].
+  set (npc := N.of_nat (length (ns_named st))) in *. set (pool := fst (flatten t None O npc)) in *.
+  unfold model_of in Ec. destruct (fix_all (rids_of pool) 0 pool) as [nodes|] eqn:Ef; cbn [bind] in Ec; [|discriminate].
+  assert (Hroot : realizes npc pool t O None).
+  { unfold pool. destruct (flatten t None O npc) as [sub tti'] eqn:Efl. cbn [fst].
+    destruct (proj1 (flatten_realizes npc) t [] [] None npc sub tti' Efl (N.le_refl _)) as (Hr & _).
+    cbn [app length] in Hr. rewrite app_nil_r in Hr. exact Hr. }
+  (* a chain of rule d itself, with k among its signers; it ends at a node of the pool *)
+  destruct (rename_fwd _ 1 _ Hd) as (rd & Hrd & ((_ & _ & Hsd) & _)).
+  apply Hsin in Hrd. destruct (forall2_in_l _ _ _ _ Hrel Hrd) as (nrd & Hnrd & (_ & Hsgn & _)).
+  destruct (Hhas nrd Hnrd) as (rcd & Hrcd & _ & Hsignd).
+  assert (Hkin : In k (ch_sign rcd)) by (rewrite Hsignd; apply in_isort; rewrite Hsgn, Hsd; exact Hk).
+  assert (Hnoref : no_refs rcd).
+  { intros r0 Hin. destruct (Hfrom rcd Hrcd) as (Hnf & _). rewrite Forall_forall in Hnf. apply (Hnf _ Hin). }
+  destruct (gen_tree_covers _ _ _ _ _ Et rcd Hrcd (Nat.le_0_l _) Hnoref) as (t' & Hst & Hend).
+  destruct (realizes_subtree npc pool _ _ Hst _ _ Hroot) as (j & p' & Hrz).
+  inversion Hrz as [? ? ? ? ? g Hg Hpar Hru Hsi _ _]; subst.
+  (* fix_all succeeded: k has an entry in rule_node_ids *)
+  assert (Hkey : exists l, al_get ident_eqb (rids_of pool) k = Some l).
+  { destruct (al_get ident_eqb (rids_of pool) k) as [l|] eqn:El; [eauto|]. exfalso.
+    destruct (fix_all_spec _ _ _ _ Ef) as [_ Hall]. destruct (Hall j g Hg) as (nd & sc & _ & Hsc & _).
+    assert (Hks : In k (g_sign g)) by (rewrite Hsi; apply in_flat_map; exists rcd; auto).
+    clear - Hsc Hks El. unfold sign_lookup in Hsc. revert Hsc. generalize (@nil N). induction (g_sign g) as [|x l IH]; intros acc Hsc; [destruct Hks|].
+    cbn in Hsc. destruct Hks as [->|Hks].
+    - rewrite El in Hsc. discriminate.
+    - destruct (al_get ident_eqb (rids_of pool) x); [|discriminate]. cbn in Hsc. eapply IH; eauto. }
+  (* hence a node where a chain with identifier k ends, hence a rule with identifier k *)
+  destruct Hkey as (l & Hl).
+  assert (Hlne : exists i, In i l).
+  { (* entries of rule_node_ids are never empty: use rids_of_in on ... *) 
+    destruct l as [|i l]; [|exists i; left; reflexivity]. exfalso. exact (rids_of_nonempty pool k [] Hl eq_refl). }
+  destruct Hlne as (i & Hi).
+  assert (Hex : exists l', al_get ident_eqb (rids_of pool) k = Some l' /\ In i l') by eauto.
+  apply rids_of_in in Hex. destruct Hex as (j' & g' & -> & Hg' & Hkr).
+  destruct (proj1 flatten_nodes t None O npc g' (nth_error_In _ _ Hg')) as (t'' & Hst'' & (Hru'' & _)).
+  rewrite Hru'' in Hkr. apply in_map_iff in Hkr. destruct Hkr as (rck & Hidk & Hrck).
+  pose proof (gen_tree_ended_sub _ _ _ _ _ Et t'' Hst'' rck Hrck) as Hrckc.
+  destruct (Hfrom rck Hrckc) as (_ & _ & (nrk & Hnrk & Hidnrk & _)).
+  destruct (forall2_in_r _ _ _ _ Hrel Hnrk) as (rk & Hrk & (Hidrk & _)).
+  apply Hsin in Hrk. destruct (rename_bwd_id _ _ _ Hrk) as (d0 & Hd0 & [[Ht0 Hid0]|[Ht0 (k' & Hid0)]]).
+  - (* an ordinary rule with identifier k: then k is defined *)
+    assert (Hdk : defined S k = true).
+    { apply defined_spec. assert (Ek : r_id d0 = k) by congruence. split; [rewrite <- Ek; exact Ht0 | exists d0; auto]. }
+    congruence.
+  - (* a renamed temporary rule: its identifier contains '#' *)
+    assert (Ek : k = r_id d0 ++ ch_hash :: dec_print k') by congruence.
+    rewrite Ek in Hplain. exact (renamed_temp_not_plain _ _ Ht0 Hplain).
 Qed.
